@@ -1,4 +1,5 @@
 import VelaVerif.Spec.CliOptions
+set_option linter.unusedSimpArgs false
 /-! Helper lemmas for Props/C13Cli: the pieces of `CliOptions.validate` against the rule list of Spec/CliOptions. -/
 namespace VelaVerif.Lemmas.CliOptions
 open VelaVerif.CliOptions VelaVerif.CliOptions.Spec
@@ -112,5 +113,102 @@ theorem selectArch_first (o : Opts) (a : Accel) (h : o.accel = some a) :
         have b2a : (portArea sm.1 sm.2.arenaPort == MemArea.sram) = false := by simpa using c2'.1
         have b2b : (portArea sm.1 sm.2.arenaPort == MemArea.dram) = false := by simpa using c2'.2
         simp [b1, b2a, b2b, c1, c2'.1, c2'.2, errOf]
+
+theorem mainRules_split : mainRules =
+    [.networkRequired, .configIni, .configReadable, .alignment, .recursionLimit] ++ (archRules ++ [.networkFile, .networkSuffix]) := rfl
+
+theorem firstViolated_eq (o : Opts) : firstViolated o = errOf (validate o) := by
+  unfold firstViolated rulesFor validate
+  rcases ha : o.accel with _ | a
+  · simp [parseRules, List.find?, violated, ha, errOf]
+  rcases hal : o.allocator with _ | al
+  · simp [parseRules, List.find?, violated, ha, hal, errOf]
+  by_cases hb : o.maxBlockdep < 0 ∨ o.maxBlockdep > 3
+  · have : (o.maxBlockdep < 0 ∨ 3 < o.maxBlockdep) := hb
+    simp [parseRules, List.find?, violated, ha, hal, hb, this, errOf]
+  rcases hop : o.optimise with _ | op
+  · have : ¬ (o.maxBlockdep < 0 ∨ 3 < o.maxBlockdep) := hb
+    simp [parseRules, List.find?, violated, ha, hal, hb, this, hop, errOf]
+  have hp : parseRules.find? (violated o) = none := by
+    have : ¬ (o.maxBlockdep < 0 ∨ 3 < o.maxBlockdep) := hb
+    simp [parseRules, List.find?, violated, ha, hal, this, hop]
+  rw [List.find?_append, hp, Option.none_or]
+  simp only [hb, if_false]
+  cases hr : o.supportedOpsReport with
+  | true => simp [errOf]
+  | false =>
+  cases hl : o.listConfigFiles with
+  | true => simp [errOf]
+  | false =>
+  simp only [Bool.or_self, Bool.false_eq_true, if_false]
+  rcases hn : o.network with _ | sfx
+  · simp [mainRules, List.find?, violated, hn, errOf]
+  rw [checkConfigs_eq]
+  have hnr : violated o .networkRequired = false := by simp [violated, hn]
+  rcases firstBadConfig_cases o.configs with hc | hc | hc
+  · have hci : violated o .configIni = false := by simp [violated, hc]
+    have hcr : violated o .configReadable = false := by simp [violated, hc]
+    simp only [hc]
+    by_cases hA : o.cpuTensorAlignment < 16 ∨ notPow2 o.cpuTensorAlignment.toNat = true
+    · have : violated o .alignment = true := by
+        simp only [violated]
+        rcases hA with hA | hA
+        · simp [hA]
+        · by_cases h16 : o.cpuTensorAlignment < 16
+          · simp [h16]
+          · have hne : o.cpuTensorAlignment.toNat ≠ 0 := by omega
+            have := (notPow2_iff hne).1 hA
+            simp [this]
+      simp [mainRules, List.find?, hnr, hci, hcr, this, hA, errOf]
+    · have hA' := not_or.1 hA
+      have : violated o .alignment = false := by
+        have hne : o.cpuTensorAlignment.toNat ≠ 0 := by omega
+        have hp2 : Nat.isPowerOfTwo o.cpuTensorAlignment.toNat := by
+          have := (not_congr (notPow2_iff hne)).1 hA'.2
+          exact Classical.not_not.1 this
+        simp [violated, hA'.1, hp2]
+      simp only [hA, if_false]
+      by_cases hR : o.recursionLimit < 1 ∨ o.recursionLimit > 2147483647
+      · have hR' : o.recursionLimit < 1 ∨ 2147483647 < o.recursionLimit := hR
+        have : violated o .recursionLimit = true := by simp [violated, hR']
+        simp [mainRules, List.find?, hnr, hci, hcr, *, errOf]
+      · have hR' : ¬ (o.recursionLimit < 1 ∨ 2147483647 < o.recursionLimit) := hR
+        have hrl : violated o .recursionLimit = false := by simp [violated, hR']
+        rw [mainRules_split, List.find?_append]
+        have h5 : List.find? (violated o) [.networkRequired, .configIni, .configReadable, .alignment, .recursionLimit] = none := by
+          simp [List.find?, *]
+        rw [h5, Option.none_or, List.find?_append, selectArch_first o a ha]
+        simp only [hR, if_false]
+        rcases hsa : selectArch a o with r | ⟨sys, mem⟩
+        · simp [errOf]
+        · simp only [errOf, Option.none_or]
+          cases hne : o.networkExists with
+          | false => simp [List.find?, violated, hne, errOf]
+          | true =>
+            cases sfx <;> simp [List.find?, violated, hne, hn, frontendOf, errOf, (by decide : (Suffix.tflite == Suffix.other) = false), (by decide : (Suffix.tosa == Suffix.other) = false)]
+  · simp [mainRules, List.find?, violated, hn, hc, errOf]
+  · simp [mainRules, List.find?, violated, hn, hc, errOf, (by decide : (Rule.configReadable == Rule.configIni) = false)]
+
+
+/-- the three area checks after the Sram→OnChipFlash override, stated on the sections as written in the files -/
+theorem override_checks (s : SysCfg) (m : MemMode) :
+    (portArea (overrideSram s m).1 (overrideSram s m).2.constPort ≠ .sram ∧
+      (portArea (overrideSram s m).1 (overrideSram s m).2.arenaPort = .sram ∨ portArea (overrideSram s m).1 (overrideSram s m).2.arenaPort = .dram) ∧
+      portArea (overrideSram s m).1 (overrideSram s m).2.cachePort = .sram) ↔
+    ((area s m.constPort ≠ .sram ∨ (m.constPort = m.arenaPort ∧ m.arenaPort = m.cachePort)) ∧
+      (area s m.arenaPort = .sram ∨ area s m.arenaPort = .dram) ∧ area s m.cachePort = .sram) := by
+  rcases s with ⟨a0, a1⟩
+  rcases m with ⟨c, ar, ca⟩
+  cases a0 <;> cases a1 <;> cases c <;> cases ar <;> cases ca <;> decide
+
+theorem checkArch_ok (a : Accel) (o : Opts) (sm r : SysCfg × MemMode) (h : checkArch a o sm = .ok r) :
+    r = sm ∧ portArea sm.1 sm.2.constPort ≠ .sram ∧
+      (portArea sm.1 sm.2.arenaPort = .sram ∨ portArea sm.1 sm.2.arenaPort = .dram) ∧
+      portArea sm.1 sm.2.cachePort = .sram ∧ 0 ≤ o.arenaCacheSize ∧ o.arenaCacheSize ≤ maxAddressOffset a := by
+  unfold checkArch at h
+  repeat' split at h
+  all_goals first | cases h | skip
+  rename_i h1 h2 h3 h4 h5
+  refine ⟨rfl, h1, Classical.not_not.1 h2, Classical.not_not.1 h3, by omega, by omega⟩
 
 end VelaVerif.Lemmas.CliOptions
